@@ -896,6 +896,29 @@ func genMisc(o *out, pkgs map[string]map[string]*ast.File, all []funcInfo) {
 	}
 	b.WriteString(strings.Join(das, ",\n") + "\n]\n\n")
 
+	// every assignment to a `.SkipHooks` field: (file, function, right side)
+	b.WriteString("def skipHooksAssigns : List (String × String × String) := [\n")
+	var sha []string
+	for _, fi := range all {
+		fi := fi
+		ast.Inspect(fi.decl.Body, func(n ast.Node) bool {
+			if as, ok := n.(*ast.AssignStmt); ok {
+				for i, l := range as.Lhs {
+					if s, ok := l.(*ast.SelectorExpr); ok && s.Sel.Name == "SkipHooks" && i < len(as.Rhs) {
+						sha = append(sha, fmt.Sprintf("  (%s, %s, %s)", lstr(fi.file), lstr(fi.name), lstr(src(as.Rhs[i]))))
+					}
+				}
+			}
+			return true
+		})
+	}
+	b.WriteString(strings.Join(sha, ",\n") + "\n]\n\n")
+	// callMethod body
+	for _, fi := range all {
+		if fi.name == "callMethod" {
+			fmt.Fprintf(&b, "def callMethodSrc : String := %s\n\n", lstr(src(fi.decl.Body)))
+		}
+	}
 	for _, fi := range all {
 		if fi.name == "DB.AddError" {
 			body := src(fi.decl.Body)
